@@ -118,6 +118,8 @@ def gen_c12(rng, big=False):
         prog["double_close"] = True
     if life == "serve" and rng.random() < 0.15:
         prog["second_server"] = True
+    elif life in ("serve", "handle-loop") and rng.random() < 0.12:
+        prog["second_server"] = "early"
     if sv["family"] == "unix" and not clients and rng.random() < 0.5:
         sv["abstract"] = True
     return prog
